@@ -108,7 +108,58 @@ let rec print_ids mp11 p m =
   Printf.printf "DOC %s %s\n" (path p) (String.concat " " (List.map (fun n -> string_of_int (int_of_nat n)) order));
   List.iteri (fun i st -> match st with State (_, Some sub, _, _, _, _) -> print_ids mp11 (p @ [nat_of_int i]) sub | _ -> ()) sts
 
+let str_of_string (s:string) : nat list = List.init (String.length s) (fun i -> nat_of_int (Char.code s.[i]))
+let string_of_str (l:nat list) : string = String.concat "" (List.map (fun n -> String.make 1 (Char.chr (int_of_nat n))) l)
+
+let puml_mode () =
+  (* one input line = one PlantUML line; output: the fields the C++ probe prints *)
+  (try while true do
+      let line = input_line stdin in
+      let s = str_of_string line in
+      let t = parse_row s in
+      let acts = t.t_action in
+      Printf.printf "ROW\x1f%s\x1f%s\x1f%s\x1f%s\x1f%s\x1fCLEAN\x1f%s\x1fNACT\x1f%d\x1fA0\x1f%s\x1fA1\x1f%s\x1fA2\x1f%s\x1fNTR\x1f%d\n"
+        (string_of_str t.t_source) (string_of_str t.t_target) (string_of_str t.t_event)
+        (string_of_str t.t_guard) (string_of_str acts) (string_of_str (cleanup_token s))
+        (int_of_nat (count_actions acts))
+        (string_of_str (parse_action O acts)) (string_of_str (parse_action (S O) acts)) (string_of_str (parse_action (S (S O)) acts))
+        (int_of_nat (count_transitions s))
+    done with End_of_file -> ())
+
+let store_mode () =
+  (* input: "TYPE name size align nothrow trivial" lines, then operations; output mirrors store_probe *)
+  let types = ref [] in
+  let st = ref (init_store (nat_of_int 6)) in
+  let dump () =
+    let live = ref 0 in
+    List.iter (fun c -> match c with
+        | CEmpty -> print_string " -"
+        | CInline (t, _, v) -> Printf.printf " i%d" (int_of_nat v); if not t.t_trivial then incr live
+        | CHeap (t, Some (_, v)) -> Printf.printf " h%d" (int_of_nat v); if not t.t_trivial then incr live
+        | CHeap (_, None) -> print_string " null") (!st).cells;
+    Printf.printf " | live %d\n" !live in
+  (try while true do
+      let line = input_line stdin in
+      match String.split_on_char ' ' (String.trim line) with
+      | "TYPE" :: _ :: sz :: al :: nt :: tr :: _ ->
+        types := !types @ [{ t_size = nat_of_int (int_of_string sz); t_align = nat_of_int (int_of_string al);
+                             t_nothrow_move = (nt = "1"); t_trivial = (tr = "1") }]
+      | [] | [""] -> ()
+      | op :: args ->
+        let a k = nat_of_int (int_of_string (List.nth args k)) in
+        let sop = (match op with
+            | "M" -> Some (SMake (a 0, List.nth !types (int_of_string (List.nth args 1)), a 2))
+            | "C" -> Some (SCopyCtor (a 0, a 1)) | "A" -> Some (SCopyAssign (a 0, a 1))
+            | "V" -> Some (SMoveCtor (a 0, a 1)) | "W" -> Some (SMoveAssign (a 0, a 1))
+            | "D" -> Some (SDestroy (a 0)) | "X" -> None | _ -> failwith ("store op " ^ op)) in
+        (match sop with
+         | None -> st := destroy_all !st; dump ()
+         | Some o -> if wf_op !st o then (st := sstep !st o; dump ()) else print_string "SKIP\n")
+    done with End_of_file -> ())
+
 let () =
+  if Sys.argv.(1) = "puml" then (puml_mode (); exit 0);
+  if Sys.argv.(1) = "store" then (store_mode (); exit 0);
   if Sys.argv.(1) = "ids" then begin
     (match parse (read_all stdin) with
      | m :: _ -> print_ids (Sys.argv.(2) = "mp11") [] (mdef m).md_root
